@@ -131,6 +131,9 @@ func (s *shrinker) removeGroups(deadline time.Time) {
 func (s *shrinker) minimizeBlocks(deadline time.Time) {
 	for i := 0; i < len(s.rec.data) && time.Now().Before(deadline); i++ {
 		minimize(s.rec.data[i], func(u uint64, label string) bool {
+			if i >= len(s.rec.data) {
+				return false // an accepted candidate made the test case shorter than i+1 blocks
+			}
 			buf := append([]uint64(nil), s.rec.data...)
 			buf[i] = u
 			return s.accept(buf, label, "minimize block %v: %v to %v", i, s.rec.data[i], u)
@@ -193,7 +196,7 @@ func (s *shrinker) removeGroupsAndLower(deadline time.Time) {
 
 func (s *shrinker) sortGroups(deadline time.Time) {
 	for i := 1; i < len(s.rec.groups) && time.Now().Before(deadline); i++ {
-		for j := i; j > 0; {
+		for j := i; j > 0 && j < len(s.rec.groups); { // an accepted swap can leave fewer groups
 			g := s.rec.groups[j]
 			if !g.standalone || g.end < 0 {
 				break
